@@ -90,6 +90,9 @@ def all_programs():
 
 # hand-written programs aimed at individual rules of the value analysis (C01)
 VALUE_PROGRAMS = [
+    # a conditional branch back to the function's own entry with a temporary live on the fall-through path
+    "main:\n    li a0, 3\n    call countdown\n    li a7, 1\n    ecall\n    li a7, 10\n    ecall\ncountdown:\n    addi a0, a0, -1\n    li a3, 100\n    bnez a0, countdown\n    add a0, a0, a3\n    ret\n",
+
     "main:\n    addi sp, sp, -8\n    sw a0, 0(sp)\n    li a0, 10\n    lw a7, 0(sp)\n    addi sp, sp, 8\n    li a7, 10\n    ecall\n",
     "main:\n    li a0, 7\n    li a7, 5\n    ecall\n    mv a1, a0\n    li a7, 10\n    ecall\n",
     "main:\n    li t0, 5\n    sub t1, t0, sp\n    div t2, zero, zero\n    divu t3, zero, zero\n    rem t4, zero, zero\n    li a7, 10\n    ecall\n",
